@@ -326,6 +326,40 @@ Proof. induction sched as [|ch sched IH]; intros m H; [exact H|]. cbn [MergeChan
 Lemma ready_init : forall la lb, ready_ok (minit la lb).
 Proof. intros la lb s. destruct s; cbn; discriminate. Qed.
 
+Lemma mpick_enabled : forall m : mstate, ready_ok m -> is_done (mc m) = false -> menabled m (mpick m) = true.
+Proof.
+  intros m Hr Hd. unfold mpick. destruct (wants (mc m)) as [s|] eqn:Hw; [|apply wants_done in Hw; congruence].
+  assert (Hws : wants_side m s = true) by (unfold wants_side; rewrite Hw; destruct s; reflexivity).
+  destruct (pph (get s m)) eqn:Hph; cbn [menabled]; rewrite Hph; auto.
+  pose proof (Hr s Hph) as Hne. destruct (pitems (get s m)); [congruence|exact Hws].
+Qed.
+
+Lemma mdrive_done : forall n (m : mstate), mmeasure m <= n -> ready_ok m -> is_done (mc (mdrive less stopf n m)) = true.
+Proof.
+  induction n as [|n IH]; intros m Hm Hr; cbn [mdrive].
+  - destruct (is_done (mc m)) eqn:Hd; [reflexivity|]. pose proof (mstep_enabled m _ (mpick_enabled m Hr Hd)). lia.
+  - destruct (is_done (mc m)) eqn:Hd; [exact Hd|]. pose proof (mstep_enabled m _ (mpick_enabled m Hr Hd)).
+    apply IH; [lia|apply ready_step; exact Hr].
+Qed.
+
+Lemma mdrive_sched : forall n (m : mstate), exists sched, mdrive less stopf n m = mrun m sched.
+Proof.
+  induction n as [|n IH]; intro m; cbn [mdrive]; [exists []; reflexivity|].
+  destruct (is_done (mc m)); [exists []; reflexivity|]. destruct (IH (mstep m (mpick m))) as (sched & H).
+  exists (mpick m :: sched). exact H.
+Qed.
+
+(* the protocol as a function of the schedule: the schedule, then the canonical completion *)
+Lemma merge_fun_eq_seq : forall sched,
+  let m1 := mrun (minit la0 lb0) sched in
+  clog (mc (mdrive less stopf (mmeasure m1) m1)) = merge_seq less stopf la0 lb0.
+Proof.
+  intros sched m1. destruct (mdrive_sched (mmeasure m1) m1) as (sched' & Hs).
+  pose proof (mdrive_done (mmeasure m1) m1 (le_n _) (ready_run sched _ (ready_init la0 lb0))) as Hd.
+  rewrite Hs in *. unfold m1 in *. unfold MergeChan.mrun in *. rewrite <- fold_left_app in *.
+  apply (merge_chan_eq_seq_lem (sched ++ sched')). exact Hd.
+Qed.
+
 (* from every reachable state the consumer can be brought to its end; while it has not returned some step is enabled;
    schedules of enabled steps are bounded *)
 Lemma merge_no_deadlock_lem : forall la lb sched,
